@@ -158,6 +158,14 @@ def o_policy(rec: Recorder, case, soft=False):
             continue
         h = make_hash(scheme, rounds, i)
         owner = model.owner(h)
+        # the stored hash may be handed in as ASCII bytes: every decision is the one made for the text form
+        hb = h.encode("ascii")
+        for label, fn in (("identify", lambda x: ctx.identify(x)), ("needs_update", lambda x: ctx.needs_update(x)), ("verify", lambda x: ctx.verify(PW, x)),
+                          ("verify-wrong", lambda x: ctx.verify("wrong", x)), ("verify_and_update", lambda x: (lambda r: (r[0], r[1] is None))(ctx.verify_and_update(PW, x)))):
+            a, b = call(fn, h), call(fn, hb)
+            if a[0] == "ok" and (b[0] == "err" or a[1] != b[1]):
+                rec.fail(f"C04/bytes-hash/{label}", f"CryptContext.{label}() decides differently for the ASCII-bytes form of a hash", "policy", dict(case, probe=[scheme, rounds, i]), repr(b[1])[:120], repr(a[1])[:120], soft=soft)
+                return
         for cat in cats:
             got = ctx.identify(h, category=cat)
             if got != owner:
